@@ -27,7 +27,11 @@
              'arbitrary token sequences (stream_invariant_partial), independence of readers under every schedule (reader_independent, '
              'interleaved_eq_solo)',
              'COMPARED ONLY (no theorem): the public Transform API stream (ingester plumbing), deliveries under interleaving on the implementation, '
-             'name resolution with re-bound prefixes'],
+             'name resolution with re-bound prefixes',
+             'union targets "alt | ... | main": without trailing filters inside the class (xml/json_stream_eq_select_union, split_filter_union; the '
+             'correspondence runs the model with the disjunction of the branch predicates); WITH a trailing filter on the last branch the final '
+             'predicate depends on the branch - outside the class of the theorems, COMPARED ONLY against the whole-document MatchAll selection in '
+             'document order'],
  'assumptions': ['xml_no_doc_target: the path part does not select the XML document node itself (targets "." and "/" make the XML reader deliver the '
                  'top-level elements instead)',
                  'releases are of the node the last Read returned (or absent)',
